@@ -29,6 +29,15 @@ func c05srcPrograms() []string {
 		"select {\ncase c1 <- i:\nINNER\nw := <-c1\nemit(58, w)\n}",
 		"switch {\ncase i == 1:\nemit(52, i)\nfallthrough\ndefault:\nINNER\nemit(53, i)\ncase i == 7:\nemit(59, i)\n}",
 		"switch i {\ncase 0:\nemit(52, i)\nfallthrough\ncase 5:\nselect {\ndefault:\nINNER\n}\nemit(53, i)\ndefault:\nINNER\n}",
+		// a select FOLLOWED in the same block by a jump meant for the enclosing loop / switch
+		"select {\ndefault:\nemit(51, 0)\n}\nINNER\nemit(62, i)",
+		"c1 <- i\nselect {\ncase v := <-c1:\nemit(55, v)\n}\nINNER\nemit(62, i)",
+		"select {\ncase c1 <- i:\nemit(58, <-c1)\ndefault:\n}\nemit(63, i)\nINNER",
+		"{\nw := i\nselect {\ndefault:\nemit(51, w)\n}\nINNER\nemit(62, w)\n}",
+		"switch {\ncase i >= 0:\nselect {\ndefault:\nemit(51, 0)\n}\nINNER\nemit(62, i)\ndefault:\nemit(64, i)\n}",
+		"switch x := interface{}(i).(type) {\ncase int:\nc1 <- x\nselect {\ncase v := <-c1:\nemit(55, v)\n}\nINNER\nemit(62, x)\n}",
+		"for j := 0; j < 2; j++ {\nselect {\ndefault:\nemit(51, j)\n}\nif j == 1 {\nbreak\n}\nemit(65, j)\n}\nINNER",
+		"select {\ndefault:\nselect {\ndefault:\nemit(51, 0)\n}\nINNER\nemit(66, i)\n}\nemit(62, i)",
 	}
 	inners := []string{
 		"emit(60, i)",
